@@ -230,7 +230,7 @@ type verdict int
 const (
 	vValid verdict = iota
 	vInvalid
-	vUnsure // the specification and Go's decoder leave it open: whole input goes to the lenient oracle
+	vUnsure // the specification leaves the decoding to the server: outcome completed from the observation (expandUnsure)
 )
 
 func judgeInt(n *node) (verdict, string) {
@@ -501,6 +501,15 @@ func bind(m *mspec, params *node) (verdict, []string) {
 			args[i] = c
 		}
 	case 'o':
+		for _, k := range params.keys {
+			known := false
+			for _, p := range m.Params {
+				known = known || p.Name == k
+			}
+			if !known {
+				return vInvalid, nil // unknown parameter name
+			}
+		}
 		if params.hasDupKeys() {
 			return vUnsure, nil
 		}
@@ -568,6 +577,20 @@ type entry struct {
 	// used only to name that deviation precisely.
 	notifErr string
 	notifWhy string
+	// unsure: calls whose parameter decoding the specification leaves open;
+	// their acceptable outcomes are completed from the observation (expandUnsure).
+	unsure []unsureSpec
+}
+
+// mode: whether (and under which id) a request is answered.
+type mode struct {
+	respond bool
+	id      string
+}
+
+type unsureSpec struct {
+	ms    *mspec
+	modes []mode
 }
 
 type expectation struct {
@@ -576,6 +599,7 @@ type expectation struct {
 	entries     []entry
 	whole       []string // alternative whole-input answers (single object, no invocation)
 	lenient     string   // non-empty: why only the well-formedness oracle applies
+	leadingWS   int      // JSON whitespace bytes before the first value
 	maxEntries  int
 }
 
@@ -598,7 +622,105 @@ func foldsToEnvelope(k string) bool {
 	return false
 }
 
-func classifyEntry(n *node, inBatch bool, lenient *string) entry {
+var envelopeKeys = []string{"jsonrpc", "method", "params", "id"}
+
+func envelopeName(k string, fold bool) string {
+	for _, e := range envelopeKeys {
+		if k == e || (fold && strings.EqualFold(k, e)) {
+			return e
+		}
+	}
+	return ""
+}
+
+// classifyEntry: a request object whose envelope keys are duplicated or differ
+// only in case has no single reading (RFC 8259 leaves duplicate names open, Go
+// matches keys case-insensitively); every consistent reading is accepted:
+// {exact, case-folded} x {first, last occurrence wins}.
+func classifyEntry(n *node, inBatch bool) entry {
+	ambiguous := false
+	if n.k == 'o' {
+		cnt := map[string]int{}
+		for _, k := range n.keys {
+			if foldsToEnvelope(k) {
+				ambiguous = true
+			}
+			if e := envelopeName(k, false); e != "" {
+				cnt[e]++
+				if cnt[e] > 1 {
+					ambiguous = true
+				}
+			}
+		}
+	}
+	if !ambiguous {
+		return classifyPlain(n, inBatch)
+	}
+	out := entry{desc: "ambiguous-envelope"}
+	seen := map[string]bool{}
+	addAlts := func(e entry) {
+		for _, a := range e.alts {
+			k := strings.Join(a.resp, "\x00") + "\x01" + a.inv
+			if !seen[k] {
+				seen[k] = true
+				out.alts = append(out.alts, a)
+			}
+		}
+		out.unsure = append(out.unsure, e.unsure...)
+		if out.notifErr == "" {
+			out.notifErr, out.notifWhy = e.notifErr, e.notifWhy
+		}
+	}
+	badType := false
+	for _, fold := range []bool{true, false} {
+		for _, last := range []bool{true, false} {
+			v := &node{k: 'o'}
+			pos := map[string]int{}
+			extra := false
+			for i, k := range n.keys {
+				e := envelopeName(k, fold)
+				if e == "" {
+					extra = true
+					continue
+				}
+				if (e == "jsonrpc" || e == "method") && n.kids[i].k != 's' {
+					badType = true
+				}
+				if j, ok := pos[e]; ok {
+					if last {
+						v.kids[j] = n.kids[i]
+					}
+					continue
+				}
+				pos[e] = len(v.keys)
+				v.keys = append(v.keys, e)
+				v.kids = append(v.kids, n.kids[i])
+			}
+			if extra {
+				v.keys = append(v.keys, "x-other-member")
+				v.kids = append(v.kids, &node{k: 'z'})
+			}
+			addAlts(classifyPlain(v, inBatch))
+		}
+	}
+	if badType {
+		// any ill-typed occurrence may fail the envelope decoding
+		codes := []int{-32600}
+		if !inBatch {
+			codes = []int{-32700, -32600}
+		}
+		ids := []string{"null"}
+		for i, k := range n.keys {
+			if envelopeName(k, true) == "id" && (n.kids[i].k == 's' || n.kids[i].k == 'n') {
+				ids = append(ids, canonID(n.kids[i]))
+			}
+		}
+		addAlts(entry{alts: []alt{{resp: keysFor(codes, ids)}}})
+	}
+	return out
+}
+
+func classifyPlain(n *node, inBatch bool) entry {
 	envCodes := []int{-32700, -32600}
 	if inBatch {
 		envCodes = []int{-32600}
@@ -606,18 +728,10 @@ func classifyEntry(n *node, inBatch bool, lenient *string) entry {
 	if n.k != 'o' {
 		return entry{desc: "non-object", alts: []alt{{resp: keysFor(envCodes, []string{"null"})}}}
 	}
-	for _, k := range n.keys {
-		if foldsToEnvelope(k) {
-			*lenient = "case-variant-envelope-key"
-		}
-	}
 	ver, c1 := n.get("jsonrpc")
 	meth, c2 := n.get("method")
 	params, c3 := n.get("params")
 	id, c4 := n.get("id")
-	if c1 > 1 || c2 > 1 || c3 > 1 || c4 > 1 {
-		*lenient = "duplicate-envelope-key"
-	}
 	unknownMembers := len(n.keys) - c1 - c2 - c3 - c4
 
 	// --- id
@@ -684,10 +798,6 @@ func classifyEntry(n *node, inBatch bool, lenient *string) entry {
 	}
 
 	// respond modes
-	type mode struct {
-		respond bool
-		id      string
-	}
 	var modes []mode
 	switch idClass {
 	case idAbsent:
@@ -739,8 +849,11 @@ func classifyEntry(n *node, inBatch bool, lenient *string) entry {
 		v, args := bind(ms, params)
 		switch v {
 		case vUnsure:
-			*lenient = "parameter-decoding-left-open"
-			e.desc = prefix + ":unsure-params"
+			e.desc = prefix + ":decoder-specific-params"
+			e.unsure = []unsureSpec{{ms: ms, modes: modes}}
+			if idClass == idAbsent {
+				e.notifErr, e.notifWhy = errKey(-32602, "null", ""), "bad-params"
+			}
 		case vInvalid:
 			add(prefix+":bad-params", func(m mode) alt {
 				if m.respond {
@@ -791,6 +904,7 @@ func classify(in []byte) expectation {
 		return expectation{lenient: "harness-tree-parser-rejected-valid-json", maxEntries: 1 << 20}
 	}
 	var ex expectation
+	ex.leadingWS = len(in) - len(bytes.TrimLeft(in, " \t\r\n"))
 	if len(bytes.TrimLeft(rest, " \t\r\n")) > 0 {
 		// trailing bytes may be ignored - or the whole input rejected
 		ex.whole = []string{errKey(-32700, "null", ""), errKey(-32600, "null", "")}
@@ -803,12 +917,12 @@ func classify(in []byte) expectation {
 		}
 		ex.batch = true
 		for _, k := range top.kids {
-			ex.entries = append(ex.entries, classifyEntry(k, true, &ex.lenient))
+			ex.entries = append(ex.entries, classifyEntry(k, true))
 		}
 		ex.maxEntries = len(top.kids)
 		return ex
 	}
-	ex.entries = []entry{classifyEntry(top, false, &ex.lenient)}
+	ex.entries = []entry{classifyEntry(top, false)}
 	ex.maxEntries = 1
 	return ex
 }
@@ -1103,6 +1217,7 @@ func judgeExecution(ex *expectation, out []byte, calls []call) result {
 	if len(out) > 0 && ex.batch != isArray {
 		return result{class: shapeClass(ex, resps, isArray), detail: "response container does not match the request container"}
 	}
+	ex = expandUnsure(ex, resps, obsInv)
 	ok, over := trySolve(ex, resps, obsInv, false, false)
 	if ok {
 		return result{}
@@ -1132,6 +1247,9 @@ func judgeExecution(ex *expectation, out []byte, calls []call) result {
 		return result{class: strings.Join(cls, "+"), detail: strings.Join(det, "; ") + ". Everything else in this execution is consistent."}
 	}
 	c, d := diagnose(ex, resps, obsInv)
+	if c == "wrong-outcome:empty-batch:got=E-32700" && ex.leadingWS >= 128 {
+		c += ":leading-whitespace>=128"
+	}
 	return result{class: c, detail: d}
 }
 
@@ -1201,6 +1319,9 @@ func shapeClass(ex *expectation, resps []obsResp, isArray bool) string {
 		k = resps[0].kind
 	}
 	if ex.batch && !isArray {
+		if ex.leadingWS >= 128 {
+			return "batch-answered-with-single-object:" + k + ":leading-whitespace>=128"
+		}
 		return "batch-answered-with-single-object:" + k
 	}
 	return "single-request-answered-with-array:" + k
@@ -1459,4 +1580,76 @@ func clipS(s string) string {
 		return s[:150] + "..." + s[len(s)-100:]
 	}
 	return s
+}
+
+// expandUnsure completes requests with decoder-specific parameters: such a
+// request is either rejected (-32602, handler not run) or accepted - then its
+// response must carry this request's id and echo exactly the arguments of one
+// recorded invocation of that method. The candidates are read off the
+// observation; the joint matching still uses every response and invocation once.
+func expandUnsure(ex *expectation, resps []obsResp, obsInv []string) *expectation {
+	any := false
+	for _, e := range ex.entries {
+		any = any || len(e.unsure) > 0
+	}
+	if !any {
+		return ex
+	}
+	out := *ex
+	out.entries = make([]entry, len(ex.entries))
+	copy(out.entries, ex.entries)
+	for i, e := range out.entries {
+		if len(e.unsure) == 0 {
+			continue
+		}
+		alts := append([]alt{}, e.alts...)
+		seen := map[string]bool{}
+		add := func(a alt) {
+			k := strings.Join(a.resp, "\x00") + "\x01" + a.inv
+			if !seen[k] {
+				seen[k] = true
+				alts = append(alts, a)
+			}
+		}
+		for _, u := range e.unsure {
+			suffix := `,"m":` + strconv.Quote(u.ms.Name) + `}`
+			for _, m := range u.modes {
+				if !m.respond {
+					add(alt{})
+					for _, k := range obsInv {
+						if strings.HasPrefix(k, u.ms.Name+"|") {
+							add(alt{inv: k})
+						}
+					}
+					continue
+				}
+				add(alt{resp: []string{errKey(-32602, m.id, "")}})
+				for _, r := range resps {
+					if r.id != m.id || r.badID {
+						continue
+					}
+					switch u.ms.Reply {
+					case replyNullPtr:
+						if r.key == resKey(m.id, "null") {
+							for _, k := range obsInv {
+								if strings.HasPrefix(k, u.ms.Name+"|") {
+									add(alt{resp: []string{r.key}, inv: k})
+								}
+							}
+						}
+					default:
+						if (u.ms.Reply == replyAppErr) != (r.kind == "app-error") || r.kind == "" || strings.HasPrefix(r.kind, "E") {
+							continue
+						}
+						pl := payloadOfKey(r.key)
+						if strings.HasPrefix(pl, `{"a":`) && strings.HasSuffix(pl, suffix) {
+							add(alt{resp: []string{r.key}, inv: u.ms.Name + "|" + pl[len(`{"a":`):len(pl)-len(suffix)]})
+						}
+					}
+				}
+			}
+		}
+		out.entries[i].alts = alts
+	}
+	return &out
 }
